@@ -163,14 +163,14 @@ func Parts(t *rapid.T, hostile bool) VerParts {
 	}
 	allowSuffix := nn == 3 || (hostile && rapid.IntRange(0, 9).Draw(t, "shortsuffix") == 0)
 	if allowSuffix && rapid.IntRange(0, 99).Draw(t, "haspre") < 55 {
-		n := rapid.IntRange(1, 4).Draw(t, "npre")
+		n := []int{1, 1, 1, 2, 2, 3, 4, 9, 24}[rapid.IntRange(0, 8).Draw(t, "npre")]
 		p.Pre = []string{}
 		for i := 0; i < n; i++ {
 			p.Pre = append(p.Pre, PreIdent(t, hostile, "pre"))
 		}
 	}
 	if allowSuffix && rapid.IntRange(0, 99).Draw(t, "hasbuild") < 25 {
-		n := rapid.IntRange(1, 3).Draw(t, "nbuild")
+		n := []int{1, 1, 2, 3, 12}[rapid.IntRange(0, 4).Draw(t, "nbuild")]
 		p.Build = []string{}
 		for i := 0; i < n; i++ {
 			p.Build = append(p.Build, BuildIdent(t, hostile, "build"))
